@@ -3,6 +3,7 @@ import Sentinel.Lemmas.EntryPool
 import Sentinel.Lemmas.EntrySchedule
 import Sentinel.Lemmas.EntryReset
 import Sentinel.Lemmas.EntryResetLedger
+import Sentinel.Lemmas.EntryClock
 /-!
 # C01 — Entry/Exit accounting is conserved and correctly attributed
 (property theorems only; the simulation lemmas live in `Sentinel/Lemmas/Entry.lean`)
@@ -455,6 +456,73 @@ theorem accounting_with_resets_partial (t0 : Nat) (segs : List (List TOp)) (h0 :
   refine ⟨?_, ?_⟩
   · rw [a]; unfold ledWindow; rw [e1]
   · rw [b]; unfold ledConc; rw [e2]
+
+/-! ## (2e) any clock
+
+The refinement theorems of (1) need clock readings that never decrease (the window sums are about time).  The gauges, the
+outcome of every `Entry`, and the error / input seen through every live entry do **not** depend on the clock at all: the
+same ops under any two clocks — readings may differ arbitrarily, step backwards, read 0 — give the same values.  Hence under
+any clock the gauge is the ledger's gauge of the same ops at a frozen clock, i.e. the number of live passed entries. -/
+theorem clock_independent (fix : Bool) (t0 t0' : Nat) (ops ops' : List TOp) (hops : ops.map (·.2) = ops'.map (·.2)) :
+    (∀ k, obsConc (run fix t0 ops) k = obsConc (run fix t0' ops') k) ∧
+    (∀ id, obsEntered (run fix t0 ops) id = obsEntered (run fix t0' ops') id) ∧
+    (∀ id, obsCtx (run fix t0 ops) id = obsCtx (run fix t0' ops') id) := by
+  have hr : ops.reverse.map (·.2) = ops'.reverse.map (·.2) := by
+    rw [List.map_reverse, List.map_reverse, hops]
+  have c := ceq_run fix t0 t0' ops.reverse ops'.reverse hr
+  unfold run
+  refine ⟨c.conc, ?_, ?_⟩
+  · intro id
+    have he := c.ents id
+    unfold obsEntered
+    cases h1 : findE (runR fix t0 ops.reverse).ents id with
+    | none =>
+      cases h2 : findE (runR fix t0' ops'.reverse).ents id with
+      | none => rfl
+      | some c' => rw [h1, h2] at he; simp at he
+    | some c1 =>
+      cases h2 : findE (runR fix t0' ops'.reverse).ents id with
+      | none => rw [h1, h2] at he; simp at he
+      | some c' =>
+        rw [h1, h2] at he
+        obtain ⟨_, _, _, q4, _⟩ := (unstart_eq_iff _ _).mp (Option.some.inj he)
+        simp only [Option.map, q4]
+  · intro id
+    have he := c.ents id
+    unfold obsCtx
+    cases h1 : findE (runR fix t0 ops.reverse).ents id with
+    | none =>
+      cases h2 : findE (runR fix t0' ops'.reverse).ents id with
+      | none => rfl
+      | some c' => rw [h1, h2] at he; simp at he
+    | some c1 =>
+      cases h2 : findE (runR fix t0' ops'.reverse).ents id with
+      | none => rw [h1, h2] at he; simp at he
+      | some c' =>
+        rw [h1, h2] at he
+        obtain ⟨q1, q2, _, _, q5⟩ := (unstart_eq_iff _ _).mp (Option.some.inj he)
+        simp only [q1, q2, q5]
+
+/-- the same ops with the clock frozen at 1 -/
+def freeze (ops : List TOp) : List TOp := ops.map fun x => (1, x.2)
+
+theorem mono_freeze (ops : List TOp) : Mono 1 (freeze ops) := by
+  unfold Mono freeze
+  rw [← List.map_reverse]
+  induction ops.reverse with
+  | nil => trivial
+  | cons x r ih =>
+    refine ⟨?_, ih⟩
+    cases r <;> simp [lastT]
+
+/-- **under any clock** — no monotonicity, any `t0` — every gauge is the ledger's gauge of the same ops (frozen clock);
+with `gauge_is_live_count` / `gauge_zero_when_idle` applied to `freeze ops`: the number of live passed entries, never
+negative, zero when idle (for `fix = true`, or on `panicFree` nodes) -/
+theorem gauge_any_clock (fix : Bool) (t0 : Nat) (ops : List TOp) (k : Key) :
+    obsConc (run fix t0 ops) k = ledConc fix (freeze ops).reverse k := by
+  have h1 := (clock_independent fix t0 1 ops (freeze ops) (by simp [freeze, Function.comp_def])).1 k
+  rw [h1]
+  exact conc_refines_ledger fix 1 (freeze ops) (by decide) (mono_freeze ops) k
 
 /-! ## (3) the statement for the code as it is, and where it fails -/
 
